@@ -15,6 +15,10 @@ func (m *M) deepEq(a, b Value, t types.Type, emptyEqNil bool, depth int) *smt.Te
 	if depth > 40 {
 		abortf("DeepEqual: recursion too deep (cyclic value?)")
 	}
+	if ra, ok := a.(RValueV); ok {
+		m.ex.noteAssumption("reflect.DeepEqual on reflect.Value arguments compares the Value structs (type, data pointer, flags), i.e. identity of the location, as the real library does")
+		return m.deepEqRValue(ra, b.(RValueV))
+	}
 	switch u := under(t).(type) {
 	case *types.Basic:
 		return m.valueEq(a, b, t)
